@@ -181,7 +181,8 @@ def _(u):
     made = []
 
     def loader(dataset, batch_size=None, shuffle=None, num_workers=None, collate_fn=None, **kw):
-        made.append(dict(dataset=dataset, batch_size=batch_size, shuffle=shuffle, collate_fn=collate_fn))
+        made.append(dict(dataset=dataset, batch_size=batch_size, shuffle=shuffle, collate_fn=collate_fn, drop_last=bool(kw.get("drop_last", False)),
+                         custom_order=kw.get("sampler") is not None or kw.get("batch_sampler") is not None))
         return made[-1]
 
     u.stub(DataLoader=loader)
@@ -190,6 +191,8 @@ def _(u):
     u.inline((LIT, "RL4COLitModule._dataloader_single"))
     r = u.run(LIT, "RL4COLitModule._dataloader", d1, 7, True, selfobj=mod, record=False)
     u.prove("loader.single", r is made[0] and made[0]["dataset"] is d1 and made[0]["collate_fn"] == "collate-1" and made[0]["batch_size"] == 7 and made[0]["shuffle"] is True)
+    # every instance comes out once per epoch: no partial batch is dropped, no sampler replaces the dataset order
+    u.prove("loader.single.keeps-the-partial-last-batch", made[0]["drop_last"] is False and made[0]["custom_order"] is False)
     made.clear()
     r = u.run(LIT, "RL4COLitModule._dataloader", {"a": d1, "b": d2}, [3, 5], False, selfobj=mod, record=False)
     u.prove("loader.dict", len(r) == 2 and made[0]["dataset"] is d1 and made[1]["dataset"] is d2 and made[0]["batch_size"] == 3 and made[1]["batch_size"] == 5
